@@ -213,6 +213,7 @@ def rule_V3(run: Run, prog: Program) -> int:
     for fn in prog.package_functions():
         if fn.name != "__apply__" or fn.cls is None:
             continue
+        fn = prog.body_of(fn)  # the code that runs, when __apply__ only hands its parameters on
         ps = fn.params()
         if len(ps) < 2:
             continue
